@@ -20,6 +20,7 @@ package server
 // entries, error class) is compared and logged but never decides.
 
 import (
+	"bufio"
 	"bytes"
 	"crypto"
 	"crypto/rand"
@@ -307,6 +308,51 @@ func c08FlipRandom(p *c08Packet, bits ...int) []byte {
 	i := bytes.Index(out, p.random[:])
 	copy(out[i:i+32], h[:32])
 	return out
+}
+
+// c08RandomOf extracts the 32-byte random the server will see in a (possibly altered) first packet.
+func c08RandomOf(raw []byte, transport string) (r [32]byte, ok bool) {
+	if transport == "WebSocket" {
+		req, err := http.ReadRequest(bufio.NewReader(bytes.NewReader(raw)))
+		if err != nil {
+			return r, false
+		}
+		h, _ := base64.StdEncoding.DecodeString(req.Header.Get("hidden"))
+		if len(h) < 32 {
+			return r, false
+		}
+		copy(r[:], h[:32])
+		return r, true
+	}
+	ch, err := parseClientHello(raw)
+	if err != nil || len(ch.random) != 32 {
+		return r, false
+	}
+	copy(r[:], ch.random)
+	return r, true
+}
+
+// c08AlterationKey names the class of an altered copy by what happened to the random: untouched
+// (replay-altered-packet), exactly one bit (replay-altered-bit<N>), several (replay-altered-multibit).
+func c08AlterationKey(p *c08Packet, altered []byte, alteredTr string) string {
+	r, ok := c08RandomOf(altered, alteredTr)
+	if !ok {
+		return "replay-altered-packet"
+	}
+	n, last := 0, -1
+	for i := 0; i < 256; i++ {
+		if (r[i/8]^p.random[i/8])&(1<<uint(i%8)) != 0 {
+			n++
+			last = i
+		}
+	}
+	switch n {
+	case 0:
+		return "replay-altered-packet"
+	case 1:
+		return fmt.Sprintf("replay-altered-bit%d", last)
+	}
+	return "replay-altered-multibit"
 }
 
 func c08Variant(p *c08Packet, v string) []byte {
@@ -739,6 +785,9 @@ func TestVerifC08Variants(t *testing.T) {
 			// check(name, altered): the altered copy must be refused where the original was accepted; if it
 			// authenticates on its own (fresh state), the original must be refused after it
 			check := func(key, name string, altered []byte, alteredTr string) {
+				if key == "" {
+					key = c08AlterationKey(p, altered, alteredTr)
+				}
 				if err := auth(used, altered, alteredTr); err == nil {
 					res.Violate(key, fmt.Sprintf("after a %s first packet was accepted, the copy altered by %s (same sealed block) authenticated as well", tr, name),
 						map[string]any{"kind": "variant", "transport": tr, "alteration": name})
@@ -756,19 +805,13 @@ func TestVerifC08Variants(t *testing.T) {
 			}
 			// 1. all 256 single-bit flips of the random
 			for b := 0; b < 256; b++ {
-				check(fmt.Sprintf("replay-altered-bit%d", b), fmt.Sprintf("random bit %d", b), c08FlipRandom(p, b), tr)
+				check("", fmt.Sprintf("random bit %d", b), c08FlipRandom(p, b), tr)
 			}
 			// 2. every single-bit flip of the whole first packet
 			for i := 0; i < len(p.raw)*8; i++ {
 				alt := append([]byte{}, p.raw...)
 				alt[i/8] ^= 1 << uint(i%8)
-				key := "replay-altered-packet"
-				if tr == "TLS" {
-					if off := bytes.Index(p.raw, p.random[:]); i/8 >= off && i/8 < off+32 {
-						key = fmt.Sprintf("replay-altered-bit%d", i-off*8)
-					}
-				}
-				check(key, fmt.Sprintf("packet bit %d (byte %d)", i, i/8), alt, tr)
+				check("", fmt.Sprintf("packet bit %d (byte %d)", i, i/8), alt, tr)
 			}
 			// 3. random multi-bit flips of the random (bit 255 in half of them)
 			for k := 0; k < multi; k++ {
@@ -780,24 +823,7 @@ func TestVerifC08Variants(t *testing.T) {
 				for len(bits) < nb {
 					bits = append(bits, rng.Intn(256))
 				}
-				net := map[int]bool{}
-				for _, b := range bits {
-					net[b] = !net[b]
-				}
-				key, nset := "replay-altered-multibit", 0
-				for b, on := range net {
-					if on {
-						nset++
-						key = fmt.Sprintf("replay-altered-bit%d", b)
-					}
-				}
-				if nset != 1 {
-					key = "replay-altered-multibit"
-				}
-				if nset == 0 {
-					continue // the flips cancel: that is the original
-				}
-				check(key, fmt.Sprint("random bits ", bits), c08FlipRandom(p, bits...), tr)
+				check("", fmt.Sprint("random bits ", bits), c08FlipRandom(p, bits...), tr)
 			}
 			// 4. the sealed block re-wrapped into the other transport by someone without keys
 			other := "WebSocket"
